@@ -27,11 +27,13 @@ CONTENT = {
     "c1": "CREATE TABLE users (id int PRIMARY KEY, name varchar(30) NOT NULL DEFAULT 'x');\n",
     "c2": "CREATE TABLE s1.a (x int, y decimal(10,2));\nCREATE SEQUENCE s1.sq START 1;\nALTER TABLE s1.a ADD UNIQUE (x);\n-- trailing comment\n",
     "c4": "/* legacy section\n-- end of legacy section */\nCREATE TABLE keep_me (id int, note varchar(10)); -- trailing\n-- whole line\n# hash line\nCREATE TABLE second (x int);\n",
+    # characters str.splitlines() breaks at but the parser treats as ordinary text (form feed, vertical tab, FS/GS/RS, NEL, U+2028/9)
+    "c5": "CREATE TABLE p1 (a int, note varchar(10) COMMENT 'a\x0cb\x0bc');\x0c\nCREATE TABLE p2 (x int); -- c\u2028d \x85 e\nCREATE TABLE p3 (y int DEFAULT 1);\x1c\n-- \u2029 \x1d\x1e\nCREATE TABLE p4 (z int);\n",
     "c3": "CREATE TABLE \"T\" (\"Id\" int, note varchar(10) COMMENT 'café да') STORED AS PARQUET;\n",
 }
 FILES = [("a.sql", "c1"), ("m.b.c.sql", "c2"), ("noext", "c1"), ("x.ddl", "c4"), ("y.hql", "c3"), ("z.bql", "c1"), ("w.txt", "c2"), ("k.json", "c1"),
-         ("v.1.ddl", "c3")]
-ENCODINGS = {"c4": ["utf-8", "utf-16", "latin-1"], "c1": ["utf-8", "utf-16", "latin-1", "cp1251"], "c2": ["utf-8", "utf-16", "ascii"], "c3": ["utf-8", "utf-16", "utf-8-sig"]}
+         ("v.1.ddl", "c3"), ("my tables.sql", "c1"), ("a+b(1)@x.ddl", "c5"), ("[q] 'r'.sql", "c2")]
+ENCODINGS = {"c5": ["utf-8", "utf-16"], "c4": ["utf-8", "utf-16", "latin-1"], "c1": ["utf-8", "utf-16", "latin-1", "cp1251"], "c2": ["utf-8", "utf-16", "ascii"], "c3": ["utf-8", "utf-16", "utf-8-sig"]}
 
 
 def frec(name, content):
